@@ -29,6 +29,14 @@ def child(world_names, n, seed):
     import props
     install.install()
     props.load_worlds()
+    # a different collector state than the first interpreter had: other thresholds, and a heap of
+    # uncollected cyclic garbage (a run must not depend on when the forking parent would collect)
+    import gc
+    gc.set_threshold(97, 3, 3)
+    junk = [[] for _ in range(23456)]
+    for j in junk:
+        j.append(j)
+    del junk
     d = digests(world_names, n, seed, 8)
     print('DIGESTS ' + json.dumps(d))
 
@@ -40,6 +48,8 @@ def main(long=False):
     install.install()
     props.load_worlds()
     worlds = sorted(runner.REGISTRY)
+    if os.environ.get('VERIF_SELFTEST_WORLDS'):
+        worlds = os.environ['VERIF_SELFTEST_WORLDS'].split(',')
     n = 200 if long else 12
     seed = 424242
     bad = 0
@@ -84,7 +94,7 @@ def main(long=False):
     total = len(a)
     doc = dict(worlds=worlds, seeds_per_world=n, runs_compared=total, nondeterministic=bad, replay_mismatch=rep_bad,
                harness_errors=len(errs), wall_s=round(time.time() - t0, 1),
-               comparisons=['16 workers vs 3 workers', 'PYTHONHASHSEED=0 vs 1 in a fresh interpreter',
+               comparisons=['16 workers vs 3 workers', 'PYTHONHASHSEED=0 vs 1 in a fresh interpreter with another garbage-collector state',
                             'generated run vs replay of its recorded tapes'])
     os.makedirs(os.path.join(HERE, 'evidence'), exist_ok=True)
     with open(os.path.join(HERE, 'evidence', 'selftest.json'), 'w') as f:
